@@ -342,6 +342,33 @@ def rule_deliver(program, ctx, prop=P, rid="C05.deliver"):
         ctx.ok(rid, fn, "an event is dropped only for `no match` or a refusing output validator")
 
 
+def rule_livefilters(program, ctx, prop=P, rid="C05.filters"):
+    from ..lib import guard_atoms
+
+    ctx.rule(
+        rid,
+        "the filters used for live matching are the filters of the stored query: Subscription.build_query appends *every* evaluated filter to the list prepare() installs "
+        "as self.filters (no condition on the append - e.g. dropping filters whose `until` is in the past makes a back-dated event match the stored query but not the live one)",
+        floor=1,
+    )
+    fn = program.func("nostr_relay.storage.db:Subscription.build_query")
+    loop = next((l for l in walk_no_nested(fn) if isinstance(l, ast.For) and "filters" in ast.unparse(l.iter)), None)
+    if loop is None:
+        raise AnalysisError("build_query: filter loop not found")
+    ret = next((r for r in walk_no_nested(fn) if isinstance(r, ast.Return) and isinstance(r.value, ast.Tuple) and len(r.value.elts) == 2), None)
+    lst = dotted(ret.value.elts[1]) if ret is not None else "new_filters"
+    apps = [c for c in ast.walk(loop) if isinstance(c, ast.Call) and isinstance(c.func, ast.Attribute) and c.func.attr == "append" and dotted(c.func.value) == lst]
+    if not apps:
+        ctx.bad(finding_at(prop, rid, loop, f"no filter is appended to `{lst}` (the live filter list)"))
+    for c in apps:
+        atoms = guard_atoms(c, stop=loop)
+        if atoms:
+            e, pol = atoms[0]
+            ctx.bad(finding_at(prop, rid, c, f"a filter only becomes a live filter when `{'' if pol else 'not '}{ast.unparse(e)[:60]}`: events that the stored query of that filter returns are not pushed live"))
+        else:
+            ctx.ok(rid, c, "every evaluated filter is also a live filter")
+
+
 def run(program, ctx):
     from ..lib import rule_awaited
 
@@ -352,6 +379,7 @@ def run(program, ctx):
     c06.rule_broadcast(program, ctx, prop=P, rid="C05.broadcast")
     rule_coverage(program, ctx)
     rule_deliver(program, ctx)
+    rule_livefilters(program, ctx)
     c13.rule_liveness(program, ctx, prop=P, rid="C05.liveness")
     c13.rule_replace(program, ctx, prop=P, rid="C05.replace")
     from . import c01
@@ -362,6 +390,10 @@ def run(program, ctx):
     c01.rule_tagindex(program, ctx, prop=P, rid="C05.tagindex")
     c13.rule_subid(program, ctx, prop=P, rid="C05.subid")
     c13.rule_cancel(program, ctx, prop=P, rid="C05.cancel")
+    from . import c07
+
+    # `if changed: notify_all_connected` sits behind a context manager: one that swallows the body's exception broadcasts an event whose insert was rolled back
+    c07.rule_ctxmgr(program, ctx, prop=P, rid="C05.ctxmgr")
     ctx.not_decided += [
         "exactly-once delivery and absence of loss under all interleavings of tasks and connections (schedule exploration is another family)",
         "check_event's set-of-booleans logic being equivalent to the stored predicates for every event (e.g. delegated authors)",
